@@ -6,7 +6,7 @@ import vlib
 import recvlib
 import convlib
 
-WORD = re.compile(r"[A-Za-z_][A-Za-z0-9_:]*")
+WORD = re.compile(r"(?:::)?[A-Za-z_][A-Za-z0-9_:]*")      # a leading `::` is part of the name
 
 
 PAIR_CAP = 2000
@@ -16,7 +16,7 @@ def pair_table(src, names):
     """(word, name) pairs whose similarity the harness reports as the oracle of the suggestion model: the words that are
     not names (the misspellings) first; (pairs, truncated)"""
     names = sorted(set(names))
-    words = sorted(set(WORD.findall(src)), key=lambda w: (w in names, w))
+    words = sorted(set(WORD.findall(src.replace("r#", ""))), key=lambda w: (w in names, w))     # `r#type` reads `type`
     return [(w, n) for w in words for n in names][:PAIR_CAP], len(words) * len(names) > PAIR_CAP
 
 
